@@ -851,7 +851,7 @@ pub fn execute(plan: &HistPlan, preds: &[Predictor], ex: &mut Exec) -> (Option<V
                     if let Some(p) = c.linked {
                         let ps = &plan.preds[p];
                         // tag_candidates() is observed only inside its documented precondition
-                        c.cands_ok = ps.predict_tags && ps.store_scores && plan.models[ps.model].n_tags() > 0;
+                        c.cands_ok = ps.predict_tags && ps.store_scores;
                     }
                 }
                 _ => {}
@@ -996,7 +996,7 @@ fn client_trace(ops: &[Op], plan: &HistPlan, preds: &[Predictor]) -> Vec<u64> {
                 Op::FillTags if do_fill => {
                     if let Some(p) = linked {
                         let ps = &plan.preds[p];
-                        cands_ok = ps.predict_tags && ps.store_scores && plan.models[ps.model].n_tags() > 0;
+                        cands_ok = ps.predict_tags && ps.store_scores;
                     }
                 }
                 _ => {}
